@@ -27,6 +27,12 @@ pub fn families(property: &str, tier: &str) -> Vec<Family> {
             Family { name: "wire", weight: if thorough { 20 } else { 60 }, gen: crate::wire::generate },
             Family { name: "wire-enum", weight: if thorough { 10 } else { 1 }, gen: crate::wire::generate_enum },
         ],
+        "C08" | "C13" => vec![
+            Family { name: "tamper", weight: if thorough { 20 } else { 60 }, gen: crate::tamper::generate },
+            Family { name: "tamper-enum", weight: if thorough { 6 } else { 1 }, gen: crate::tamper::generate_enum },
+            Family { name: "hist", weight: 10, gen: crate::hist::generate },
+        ],
+        "C16" => vec![Family { name: "panics", weight: 1, gen: crate::panics::generate }],
         _ => vec![],
     }
 }
@@ -35,6 +41,8 @@ pub fn dispatch(scn: &Scenario, ctx: &mut Ctx) -> Result<(), String> {
     match scn.family.as_str() {
         "hist" => crate::hist::run(scn, ctx),
         "wire" => crate::wire::run(scn, ctx),
+        "tamper" => crate::tamper::run(scn, ctx),
+        "panics" => crate::panics::run(scn, ctx),
         f => return Err(format!("unknown scenario family {}", f)),
     }
     Ok(())
@@ -398,6 +406,7 @@ pub fn main(args: &[String]) -> Result<i32, String> {
             let tier = std::env::var("VERIF_TIER").ok().filter(|t| t == "quick" || t == "thorough").unwrap_or(tier.to_string());
             run_check(property, &tier)
         }
+        Some("callprobe") => Ok(crate::panics::callprobe_main(args)),
         Some("replay") => replay(args.get(2).ok_or("usage: envsim replay <file>")?),
         Some("hashes") => {
             let property = args.get(2).ok_or("usage")?;
